@@ -135,7 +135,51 @@ fn verif_search() {
 }
 '''
 
-KINDS = {"shift": SHIFT, "srcinfo": SRCINFO, "timer": TIMER}
+CONSTRUCTOR = r'''
+use lc3_ensemble::sim::mem::MachineInitStrategy;
+use lc3_ensemble::sim::{SimFlags, Simulator};
+use std::sync::Arc;
+use std::sync::atomic::Ordering;
+fn io_page(sim: &Simulator, what: &str, strat: &str) -> bool {
+    for addr in 0xFE00u16..=0xFFFF {
+        let w = sim.mem[addr];
+        if w.get() != 0 || !w.is_init() {
+            println!("VERIF-FOUND {{\"machine\": {what:?}, \"strategy\": {strat:?}, \"address\": \"x{addr:04X}\", \"word\": \"x{:04X}\", \"initialized\": {}, \"expected\": \"initialized x0000\"}}", w.get(), w.is_init());
+            return false;
+        }
+    }
+    true
+}
+#[test]
+fn verif_search() {
+    let mut checked = 0u32;
+    let strategies = [("Known(xABCD)", MachineInitStrategy::Known { value: 0xABCD }), ("Known(0)", MachineInitStrategy::Known { value: 0 }),
+                      ("Seeded(1)", MachineInitStrategy::Seeded { seed: 1 }), ("Unseeded", MachineInitStrategy::Unseeded)];
+    for (name, strat) in strategies { for mcr_on in [false, true] { for debug_frames in [false, true] {
+        let flags = SimFlags { machine_init: strat, debug_frames, ..Default::default() };
+        let mut sim = Simulator::new(flags);
+        checked += 1;
+        if !io_page(&sim, "Simulator::new", name) { panic!("I/O page of a new simulator"); }
+        if sim.instructions_run != 0 || sim.flags != flags {
+            println!("VERIF-FOUND {{\"machine\": \"Simulator::new\", \"strategy\": {name:?}, \"instructions_run\": {}, \"flags_kept\": {}}}", sim.instructions_run, sim.flags == flags);
+            panic!("new simulator");
+        }
+        // the constructor as `reset` uses it: with the live MCR handle
+        let h = Arc::clone(sim.mcr());
+        h.store(mcr_on, Ordering::Relaxed);
+        sim.reset();
+        if !io_page(&sim, if mcr_on { "reset with the MCR set" } else { "reset with the MCR clear" }, name) { panic!("I/O page after reset"); }
+        if !Arc::ptr_eq(&h, sim.mcr()) || h.load(Ordering::Relaxed) != mcr_on || sim.instructions_run != 0 || sim.flags != flags {
+            println!("VERIF-FOUND {{\"machine\": \"reset\", \"strategy\": {name:?}, \"mcr_before\": {mcr_on}, \"same_mcr_handle\": {}, \"mcr_after\": {}, \"instructions_run\": {}, \"flags_kept\": {}}}",
+                     Arc::ptr_eq(&h, sim.mcr()), h.load(Ordering::Relaxed), sim.instructions_run, sim.flags == flags);
+            panic!("machine rebuilt by reset");
+        }
+    }}}
+    println!("VERIF-NONE checked={checked}");
+}
+'''
+
+KINDS = {"shift": SHIFT, "srcinfo": SRCINFO, "timer": TIMER, "constructor": CONSTRUCTOR}
 
 
 def run(kind, repo, seed=0):
